@@ -8,11 +8,20 @@ namespace SigModel.Mcu
 
 /-! ### the invariant -/
 
+/-- A session that is not closed, or whose `Close()` still has its release ahead. -/
+def Live (x : Sess) : Prop := x.closed = true → 0 < x.needLeave + x.needRelease
+
 /-- The owner still refers to the object, has not released since the creation
-started and has not finished closing. -/
+started, and is live or about to release. -/
 def Tracked (st : State) (o : Obj) : Prop :=
-  (st.sess o.owner).closePc ≠ 3 ∧ o.stamp = (st.sess o.owner).epoch ∧
+  Live (st.sess o.owner) ∧ o.stamp = (st.sess o.owner).epoch ∧
   (st.sess o.owner).objs o.kind = some o.id
+
+/-- The map part of `Tracked` (the first component is a placeholder so that both have the same shape). -/
+def Mapped (st : State) (o : Obj) : Prop :=
+  True ∧ o.stamp = (st.sess o.owner).epoch ∧ (st.sess o.owner).objs o.kind = some o.id
+
+theorem Tracked.mapped {st : State} {o : Obj} (h : Tracked st o) : Mapped st o := ⟨trivial, h.2.1, h.2.2⟩
 
 /-- Ids are handed out once. -/
 structure IdsOk (st : State) : Prop where
@@ -31,7 +40,7 @@ def Owned (st : State) : Prop :=
 /-- A tracked open object (of a kind in the scope `sc`) is covered by the owner's
 permissions unless a revocation goroutine is still to run. -/
 def PermOk (sc : Kind → Bool) (st : State) : Prop :=
-  ∀ o ∈ st.objs, o.isOpen = true → Tracked st o → (st.sess o.owner).sweeps = 0 →
+  ∀ o ∈ st.objs, o.isOpen = true → Mapped st o → (st.sess o.owner).sweeps = 0 →
     sc o.kind = true → permitted (st.sess o.owner).perms o.kind o.media = true
 
 /-! ### basic facts about the helpers -/
@@ -129,14 +138,6 @@ theorem findPend_some {pend : List Pending} {k : Nat} {p : Pending} (h : findPen
 
 /-! ### `Owned` -/
 
-/-- `Tracked` only looks at three fields of the owner. -/
-theorem tracked_congr {st st' : State} {o : Obj}
-    (h1 : (st'.sess o.owner).closePc = (st.sess o.owner).closePc)
-    (h2 : (st'.sess o.owner).epoch = (st.sess o.owner).epoch)
-    (h3 : (st'.sess o.owner).objs o.kind = (st.sess o.owner).objs o.kind) :
-    Tracked st' o ↔ Tracked st o := by
-  unfold Tracked; rw [h1, h2, h3]
-
 /-- Frame rule for `Owned`: same objects, nothing leaves `closing`, tracked objects stay tracked or are being closed. -/
 theorem owned_frame {st st' : State} (ho : Owned st) (hobjs : st'.objs = st.objs)
     (hcl : ∀ k ∈ st.closing, k ∈ st'.closing)
@@ -148,9 +149,9 @@ theorem owned_frame {st st' : State} (ho : Owned st) (hobjs : st'.objs = st.objs
   · exact Or.inl (hcl _ h)
   · exact htr o hmem hopen h
 
-/-- A session-local update that keeps the generation and the maps and does not finish a close. -/
+/-- A session-local update that keeps the generation and the maps and keeps the session live. -/
 theorem owned_upd {st : State} (ho : Owned st) (s : Nat) (f : Sess → Sess)
-    (hpc : (f (st.sess s)).closePc ≠ 3 ∨ (f (st.sess s)).closePc = (st.sess s).closePc)
+    (hpc : Live (st.sess s) → Live (f (st.sess s)))
     (hep : (f (st.sess s)).epoch = (st.sess s).epoch)
     (hob : (f (st.sess s)).objs = (st.sess s).objs) : Owned (st.upd s f) := by
   apply owned_frame (st' := st.upd s f) ho rfl (fun _ h => h)
@@ -161,10 +162,7 @@ theorem owned_upd {st : State} (ho : Owned st) (s : Nat) (f : Sess → Sess)
     rw [hs] at ht ⊢
     simp only [upd_sess_same]
     rw [hep, hob]
-    refine ⟨?_, ht.2.1, ht.2.2⟩
-    rcases hpc with h | h
-    · exact h
-    · rw [h]; exact ht.1
+    exact ⟨hpc ht.1, ht.2.1, ht.2.2⟩
   · unfold Tracked at *
     rw [upd_sess_ne _ _ _ _ hs]; exact ht
 
@@ -196,7 +194,7 @@ theorem owned_leaveRoomStep {st : State} (ho : Owned st) (s : Nat) : Owned (leav
   split
   · exact ho
   · apply owned_release
-    exact owned_upd ho s _ (Or.inr rfl) rfl rfl
+    exact owned_upd ho s _ (fun h => h) rfl rfl
 
 theorem owned_dropEntry {st : State} (ho : Owned st) (i : Nat) (kd : Kind) (k : Nat)
     (hk : (st.sess i).objs kd = some k) : Owned (dropEntry st i kd k) := by
@@ -304,7 +302,7 @@ theorem owned_createEndOk {st : State} (cfg : Cfg) (hp : cfg.recheckPub = true) 
       cases h : (st.sess p.owner).objs p.kind with
       | none => rfl
       | some _ => rw [h] at hnone; cases hnone
-    have hlive : (st.sess p.owner).closePc = 0 ∧ (st.sess p.owner).epoch = p.stamp := by
+    have hlive : (st.sess p.owner).closed = false ∧ (st.sess p.owner).epoch = p.stamp := by
       unfold recheckOk at hre
       cases hk : p.kind with
       | pub t => simp [hk, hp] at hre; exact ⟨hre.1.1, hre.1.2⟩
@@ -335,7 +333,9 @@ theorem owned_createEndOk {st : State} (cfg : Cfg) (hp : cfg.recheckPub = true) 
       unfold Tracked
       simp only [upd_sess_same]
       refine ⟨?_, hlive.2.symm, by simp⟩
-      rw [hlive.1]; decide
+      intro hc
+      simp only [] at hc
+      rw [hlive.1] at hc; cases hc
   · -- refused or lost: handed to a closing goroutine
     intro o hmem hopen
     simp only [] at hmem ⊢
@@ -352,8 +352,8 @@ theorem owned_createEndOk {st : State} (cfg : Cfg) (hp : cfg.recheckPub = true) 
 theorem owned_step (cfg : Cfg) (hp : cfg.recheckPub = true) (hs : cfg.recheckSub = true)
     {st : State} (ho : Owned st) (a : Action) : Owned (step cfg st a) := by
   cases a with
-  | join s r => exact owned_upd ho s _ (Or.inr rfl) rfl rfl
-  | inCallSet s b => exact owned_upd ho s _ (Or.inr rfl) rfl rfl
+  | join s r => exact owned_upd ho s _ (fun h => h) rfl rfl
+  | inCallSet s b => exact owned_upd ho s _ (fun h => h) rfl rfl
   | leaveCall s =>
     simp only [step]
     split
@@ -362,17 +362,16 @@ theorem owned_step (cfg : Cfg) (hp : cfg.recheckPub = true) (hs : cfg.recheckSub
   | leaveRoom s => exact owned_leaveRoomStep ho s
   | closeCancel s =>
     simp only [step]
-    split
-    · exact owned_upd ho s _ (Or.inl (by simp)) rfl rfl
-    · exact ho
+    exact owned_upd ho s _ (fun _ _ => by simp only []; omega) rfl rfl
   | closeLeave s =>
     simp only [step]
     split
-    · exact owned_upd (owned_leaveRoomStep ho s) s _ (Or.inl (by simp)) rfl rfl
     · exact ho
+    · exact owned_upd (owned_leaveRoomStep ho s) s _ (fun _ _ => by simp only []; omega) rfl rfl
   | closeRelease s =>
     simp only [step]
     split
+    · exact ho
     · intro o hmem hopen
       simp only [upd_objs, release_objs, upd_closing] at hmem ⊢
       rcases release_covers ho s o hmem hopen with h | ⟨hne, h⟩
@@ -380,13 +379,12 @@ theorem owned_step (cfg : Cfg) (hp : cfg.recheckPub = true) (hs : cfg.recheckSub
       · right
         unfold Tracked at *
         rw [upd_sess_ne _ _ _ _ hne]; exact h
-    · exact ho
-  | setPerms s p => exact owned_upd ho s _ (Or.inr rfl) rfl rfl
+  | setPerms s p => exact owned_upd ho s _ (fun h => h) rfl rfl
   | sweep s =>
     simp only [step]
     split
     · exact ho
-    · exact owned_sweepBody cfg (owned_upd ho s _ (Or.inr rfl) rfl rfl) s
+    · exact owned_sweepBody cfg (owned_upd ho s _ (fun h => h) rfl rfl) s
   | offerBegin s t m =>
     simp only [step]
     split
@@ -624,19 +622,17 @@ theorem idsOk_step (cfg : Cfg) {st : State} (hi : IdsOk st) (a : Action) : IdsOk
   | leaveRoom s => exact idsOk_leaveRoomStep hi s
   | closeCancel s =>
     simp only [step]
-    split
-    · exact idsOk_upd hi s _ (fun _ _ h => h)
-    · exact hi
+    exact idsOk_upd hi s _ (fun _ _ h => h)
   | closeLeave s =>
     simp only [step]
     split
-    · exact idsOk_upd (idsOk_leaveRoomStep hi s) s _ (fun _ _ h => h)
     · exact hi
+    · exact idsOk_upd (idsOk_leaveRoomStep hi s) s _ (fun _ _ h => h)
   | closeRelease s =>
     simp only [step]
     split
-    · exact idsOk_upd (idsOk_release hi s) s _ (fun _ _ h => h)
     · exact hi
+    · exact idsOk_upd (idsOk_release hi s) s _ (fun _ _ h => h)
   | setPerms s p => simp only [step]; exact idsOk_upd hi s _ (fun _ _ h => h)
   | sweep s =>
     simp only [step]
@@ -681,8 +677,8 @@ theorem eq_of_id_eq {objs : List Obj} (hn : (objs.map (·.id)).Nodup) {a b : Obj
   exact Option.some.inj h2
 
 theorem permOk_frame {st st' : State} (hp : PermOk sc st) (hobjs : st'.objs = st.objs)
-    (h : ∀ o ∈ st.objs, o.isOpen = true → Tracked st' o → (st'.sess o.owner).sweeps = 0 →
-      Tracked st o ∧ (st.sess o.owner).sweeps = 0 ∧ (st'.sess o.owner).perms = (st.sess o.owner).perms) :
+    (h : ∀ o ∈ st.objs, o.isOpen = true → Mapped st' o → (st'.sess o.owner).sweeps = 0 →
+      Mapped st o ∧ (st.sess o.owner).sweeps = 0 ∧ (st'.sess o.owner).perms = (st.sess o.owner).perms) :
     PermOk sc st' := by
   intro o hmem hopen ht hsw
   rw [hobjs] at hmem
@@ -691,7 +687,6 @@ theorem permOk_frame {st st' : State} (hp : PermOk sc st) (hobjs : st'.objs = st
   exact hp o hmem hopen h1 h2
 
 theorem permOk_upd {st : State} (hp : PermOk sc st) (s : Nat) (f : Sess → Sess)
-    (hpc : (f (st.sess s)).closePc ≠ 3 → (st.sess s).closePc ≠ 3)
     (hep : (f (st.sess s)).epoch = (st.sess s).epoch)
     (hob : (f (st.sess s)).objs = (st.sess s).objs)
     (hpe : (f (st.sess s)).perms = (st.sess s).perms)
@@ -699,12 +694,12 @@ theorem permOk_upd {st : State} (hp : PermOk sc st) (s : Nat) (f : Sess → Sess
   apply permOk_frame (st' := st.upd s f) hp rfl
   intro o _ _ ht hs0
   by_cases hs : o.owner = s
-  · unfold Tracked at *
+  · unfold Mapped at *
     rw [hs] at ht hs0 ⊢
     simp only [upd_sess_same] at ht hs0 ⊢
     rw [hep, hob] at ht
-    exact ⟨⟨hpc ht.1, ht.2.1, ht.2.2⟩, hsw hs0, hpe⟩
-  · unfold Tracked at *
+    exact ⟨⟨trivial, ht.2.1, ht.2.2⟩, hsw hs0, hpe⟩
+  · unfold Mapped at *
     rw [upd_sess_ne _ _ _ _ hs] at ht hs0 ⊢
     exact ⟨ht, hs0, rfl⟩
 
@@ -713,10 +708,10 @@ theorem permOk_release {st : State} (hp : PermOk sc st) (i : Nat) : PermOk sc (r
   intro o _ _ ht hs0
   by_cases hs : o.owner = i
   · exfalso
-    unfold Tracked at ht
+    unfold Mapped at ht
     rw [hs, release_sess_same] at ht
     cases ht.2.2
-  · unfold Tracked at *
+  · unfold Mapped at *
     rw [release_sess_ne _ _ _ hs] at ht hs0 ⊢
     exact ⟨ht, hs0, rfl⟩
 
@@ -724,7 +719,7 @@ theorem permOk_leaveRoomStep {st : State} (hp : PermOk sc st) (s : Nat) : PermOk
   unfold leaveRoomStep
   split
   · exact hp
-  · exact permOk_release (permOk_upd hp s _ (fun h => h) rfl rfl rfl (fun h => h)) s
+  · exact permOk_release (permOk_upd hp s _ rfl rfl rfl (fun h => h)) s
 
 /-! the revocation goroutine -/
 
@@ -743,17 +738,16 @@ theorem dropEntry_sess_same (st : State) (i : Nat) (kd : Kind) (k : Nat) :
 structure SweepRel (st st' : State) (s : Nat) : Prop where
   objs : st'.objs = st.objs
   other : ∀ j, j ≠ s → st'.sess j = st.sess j
-  closePc : (st'.sess s).closePc = (st.sess s).closePc
   epoch : (st'.sess s).epoch = (st.sess s).epoch
   perms : (st'.sess s).perms = (st.sess s).perms
   sweeps : (st'.sess s).sweeps = (st.sess s).sweeps
   sub : ∀ kd k, (st'.sess s).objs kd = some k → (st.sess s).objs kd = some k
 
 theorem sweepRel_refl (st : State) (s : Nat) : SweepRel st st s :=
-  ⟨rfl, fun _ _ => rfl, rfl, rfl, rfl, rfl, fun _ _ h => h⟩
+  ⟨rfl, fun _ _ => rfl, rfl, rfl, rfl, fun _ _ h => h⟩
 
 theorem sweepRel_drop (st : State) (s : Nat) (kd : Kind) (k : Nat) : SweepRel st (dropEntry st s kd k) s := by
-  refine ⟨rfl, fun j hj => dropEntry_sess_ne st s j kd k hj, ?_, ?_, ?_, ?_, ?_⟩
+  refine ⟨rfl, fun j hj => dropEntry_sess_ne st s j kd k hj, ?_, ?_, ?_, ?_⟩
   all_goals rw [dropEntry_sess_same]
   intro kd' k' h
   simp only [] at h
@@ -762,7 +756,7 @@ theorem sweepRel_drop (st : State) (s : Nat) (kd : Kind) (k : Nat) : SweepRel st
   · exact h
 
 theorem sweepRel_trans {a b c : State} {s : Nat} (h1 : SweepRel a b s) (h2 : SweepRel b c s) : SweepRel a c s :=
-  ⟨h2.objs.trans h1.objs, fun j hj => (h2.other j hj).trans (h1.other j hj), h2.closePc.trans h1.closePc,
+  ⟨h2.objs.trans h1.objs, fun j hj => (h2.other j hj).trans (h1.other j hj),
    h2.epoch.trans h1.epoch, h2.perms.trans h1.perms, h2.sweeps.trans h1.sweeps,
    fun kd k h => h1.sub kd k (h2.sub kd k h)⟩
 
@@ -864,7 +858,7 @@ theorem sweepBody_keeps_screen (cfg : Cfg) (hcfg : cfg.sweepEarly = false) (st :
 
 theorem permOk_sweepBody (cfg : Cfg) (hcfg : cfg.sweepEarly = false ∨ sc (.pub .screen) = false)
     {st : State} (hi : IdsOk st)
-    (hp : ∀ o ∈ st.objs, o.isOpen = true → o.owner ≠ s → Tracked st o → (st.sess o.owner).sweeps = 0 →
+    (hp : ∀ o ∈ st.objs, o.isOpen = true → o.owner ≠ s → Mapped st o → (st.sess o.owner).sweeps = 0 →
       sc o.kind = true → permitted (st.sess o.owner).perms o.kind o.media = true) :
     PermOk sc (sweepBody cfg st s) := by
   have hrel := sweepBody_rel cfg st s
@@ -873,7 +867,7 @@ theorem permOk_sweepBody (cfg : Cfg) (hcfg : cfg.sweepEarly = false ∨ sc (.pub
   rw [hrel.objs] at hmem
   by_cases hs : o.owner = s
   · -- an object of the swept session that is still tracked
-    unfold Tracked at ht
+    unfold Mapped at ht
     rw [hs] at ht ⊢
     rw [hrel.perms]
     have hmap := ht.2.2
@@ -908,8 +902,8 @@ theorem permOk_sweepBody (cfg : Cfg) (hcfg : cfg.sweepEarly = false ∨ sc (.pub
             cases ha : o.media.audio <;> cases hv : o.media.video <;>
               cases hpa : (st.sess s).perms.audio <;> cases hpv : (st.sess s).perms.video <;>
               simp [ha, hv, hpa, hpv] at hcond ⊢
-  · have ht' : Tracked st o := by
-      unfold Tracked at *
+  · have ht' : Mapped st o := by
+      unfold Mapped at *
       rw [hrel.other _ hs] at ht; exact ht
     rw [hrel.other _ hs] at hs0 ⊢
     exact hp o hmem hopen hs ht' hs0 hsc
@@ -919,8 +913,8 @@ theorem permOk_setMedia {st : State} (hi : IdsOk st) (hp : PermOk sc st) (s : Na
     PermOk sc { st with objs := setMedia st.objs k m } := by
   intro o hmem hopen ht hs0
   obtain ⟨o', ho', hid, hown, hkind, hst, hop, hcase⟩ := mem_setMedia hmem
-  have ht' : Tracked st o' := by
-    unfold Tracked at *
+  have ht' : Mapped st o' := by
+    unfold Mapped at *
     simp only [] at ht
     rw [hown, hkind, hst, hid] at ht; exact ht
   simp only [] at hs0 ⊢
@@ -950,13 +944,13 @@ theorem permOk_createEndOk {st : State} (cfg : Cfg) (hrp : cfg.recheckPub = true
       by_cases hown : o.owner = p.owner
       · have hkd : o.kind ≠ p.kind := by
           intro hkd
-          unfold Tracked at ht
+          unfold Mapped at ht
           rw [hown, upd_sess_same] at ht
           have h3 := ht.2.2
           simp only [hkd, if_true] at h3
           exact hnew o hold (Option.some.inj h3).symm
-        have ht' : Tracked st o := by
-          unfold Tracked at *
+        have ht' : Mapped st o := by
+          unfold Mapped at *
           rw [hown, upd_sess_same] at ht
           rw [hown]
           refine ⟨ht.1, ht.2.1, ?_⟩
@@ -966,8 +960,8 @@ theorem permOk_createEndOk {st : State} (cfg : Cfg) (hrp : cfg.recheckPub = true
         rw [hown, upd_sess_same] at hs0 ⊢
         rw [← hown] at hs0 ⊢
         exact hp o hold hopen ht' hs0
-      · have ht' : Tracked st o := by
-          unfold Tracked at *
+      · have ht' : Mapped st o := by
+          unfold Mapped at *
           rw [upd_sess_ne _ _ _ _ hown] at ht; exact ht
         rw [upd_sess_ne _ _ _ _ hown] at hs0 ⊢
         exact hp o hold hopen ht' hs0
@@ -987,7 +981,7 @@ theorem permOk_createEndOk {st : State} (cfg : Cfg) (hrp : cfg.recheckPub = true
       have : o = { id := p.id, owner := p.owner, kind := p.kind, media := p.media, stamp := p.stamp, isOpen := true } := by
         simpa using hnw
       subst this
-      unfold Tracked at ht
+      unfold Mapped at ht
       obtain ⟨o2, ho2, h21, _, _⟩ := hi.map_ok _ _ _ ht.2.2
       exact hnew o2 ho2 h21
 
@@ -1000,19 +994,12 @@ theorem permOk_doClose {st : State} (hp : PermOk sc st) (k : Nat) :
   · subst heq
     exact hp o ho' hopen ht hs0
 
-theorem leaveRoomStep_closePc (st : State) (s : Nat) :
-    ((leaveRoomStep st s).sess s).closePc = (st.sess s).closePc := by
-  unfold leaveRoomStep
-  split
-  · rfl
-  · rw [release_sess_same]; simp
-
 theorem permOk_step (cfg : Cfg) (hrp : cfg.recheckPub = true)
     (hcfg : cfg.sweepEarly = false ∨ sc (.pub .screen) = false)
     {st : State} (hi : IdsOk st) (hp : PermOk sc st) (a : Action) : PermOk sc (step cfg st a) := by
   cases a with
-  | join s r => simp only [step]; exact permOk_upd hp s _ (fun h => h) rfl rfl rfl (fun h => h)
-  | inCallSet s b => simp only [step]; exact permOk_upd hp s _ (fun h => h) rfl rfl rfl (fun h => h)
+  | join s r => simp only [step]; exact permOk_upd hp s _ rfl rfl rfl (fun h => h)
+  | inCallSet s b => simp only [step]; exact permOk_upd hp s _ rfl rfl rfl (fun h => h)
   | leaveCall s =>
     simp only [step]
     split
@@ -1021,22 +1008,17 @@ theorem permOk_step (cfg : Cfg) (hrp : cfg.recheckPub = true)
   | leaveRoom s => exact permOk_leaveRoomStep hp s
   | closeCancel s =>
     simp only [step]
-    split
-    · rename_i h0
-      exact permOk_upd hp s _ (fun _ => by rw [h0]; decide) rfl rfl rfl (fun h => h)
-    · exact hp
+    exact permOk_upd hp s _ rfl rfl rfl (fun h => h)
   | closeLeave s =>
     simp only [step]
     split
-    · rename_i h1
-      exact permOk_upd (permOk_leaveRoomStep hp s) s _
-        (fun _ => by rw [leaveRoomStep_closePc, h1]; decide) rfl rfl rfl (fun h => h)
     · exact hp
+    · exact permOk_upd (permOk_leaveRoomStep hp s) s _ rfl rfl rfl (fun h => h)
   | closeRelease s =>
     simp only [step]
     split
-    · exact permOk_upd (permOk_release hp s) s _ (fun h => (h rfl).elim) rfl rfl rfl (fun h => h)
     · exact hp
+    · exact permOk_upd (permOk_release hp s) s _ rfl rfl rfl (fun h => h)
   | setPerms s p =>
     simp only [step]
     intro o hmem hopen ht hs0
@@ -1044,8 +1026,8 @@ theorem permOk_step (cfg : Cfg) (hrp : cfg.recheckPub = true)
     by_cases hs : o.owner = s
     · rw [hs, upd_sess_same] at hs0
       simp at hs0
-    · have ht' : Tracked st o := by
-        unfold Tracked at *
+    · have ht' : Mapped st o := by
+        unfold Mapped at *
         rw [upd_sess_ne _ _ _ _ hs] at ht; exact ht
       rw [upd_sess_ne _ _ _ _ hs] at hs0 ⊢
       exact hp o hmem hopen ht' hs0
@@ -1056,8 +1038,8 @@ theorem permOk_step (cfg : Cfg) (hrp : cfg.recheckPub = true)
     · apply permOk_sweepBody cfg hcfg (idsOk_upd hi s _ (fun _ _ h => h))
       intro o hmem hopen hne ht hs0 hsc
       simp only [upd_objs] at hmem
-      have ht' : Tracked st o := by
-        unfold Tracked at *
+      have ht' : Mapped st o := by
+        unfold Mapped at *
         rw [upd_sess_ne _ _ _ _ hne] at ht; exact ht
       rw [upd_sess_ne _ _ _ _ hne] at hs0 ⊢
       exact hp o hmem hopen ht' hs0 hsc
